@@ -80,8 +80,8 @@ impl PartialEq for Duration {
     fn eq(&self, other: &Self) -> bool {
         if self.centuries == other.centuries {
             self.nanoseconds == other.nanoseconds
-        } else if (self.centuries.saturating_sub(other.centuries)).saturating_abs() == 1
-            && (self.centuries == 0 || other.centuries == 0)
+        } else if (self.centuries == -1 && other.centuries == 0)
+            || (self.centuries == 0 && other.centuries == -1)
         {
             // Special case where we're at the zero crossing
             if self.centuries < 0 {
